@@ -545,6 +545,7 @@ func (w *World) Serve(task, idx int, rq *Req) *ReqRec {
 	rec := &ReqRec{Task: task, Idx: idx, Method: rq.Method, Path: rq.Path, CtxID: -1}
 	rs := &reqState{rec: rec, req: rq, started: map[string]int{}}
 	rs.sw = NewSimWriter(rq.WFaults)
+	rs.sw.rec = rec
 	rs.orig = newHTTPRequest(rq.Method, rq.Path, rs)
 	t := shCur()
 	w.setCur(t, rs)
